@@ -68,6 +68,17 @@ def stepLine (u : Unit) (line : String) : Unit × String :=
         else if name == "gemm" then out x y A B (gemm alpha beta A B C (f "transA") (f "transB") (nn "m") (nn "n") (nn "k") (f "oA") (f "ldA") (f "oB") (f "ldB") (f "oC") (f "ldC")) ""
         else if name == "syrk" then out x y A B (syrk alpha beta A C (f "uplo") (f "trans") (nn "n") (nn "k") (f "oA") (f "ldA") (f "oC") (f "ldC")) ""
         else if name == "trmm" then out x y A (trmm alpha A B (f "side") (f "uplo") (f "transA") (f "diag") (nn "m") (nn "n") (f "oA") (f "ldA") (f "oB") (f "ldB")) C ""
+        else if name == "gbmv" then out x (gbmv alpha beta A x y (f "trans") (nn "m") (nn "n") (nn "kl") (nn "ku") (f "oA") (f "ldA") (f "ox") (f "ix") (f "oy") (f "iy")) A B C ""
+        else if name == "sbmv" then out x (sbmv false alpha beta A x y (f "uplo") (nn "n") (nn "k") (f "oA") (f "ldA") (f "ox") (f "ix") (f "oy") (f "iy")) A B C ""
+        else if name == "hbmv" then out x (sbmv true alpha beta A x y (f "uplo") (nn "n") (nn "k") (f "oA") (f "ldA") (f "ox") (f "ix") (f "oy") (f "iy")) A B C ""
+        else if name == "syr2" then out x y (syr2 false alpha x y A (f "uplo") (nn "n") (f "ox") (f "ix") (f "oy") (f "iy") (f "oA") (f "ldA")) B C ""
+        else if name == "her2" then out x y (syr2 true alpha x y A (f "uplo") (nn "n") (f "ox") (f "ix") (f "oy") (f "iy") (f "oA") (f "ldA")) B C ""
+        else if name == "symm" then out x y A B (symm false alpha beta A B C (f "side") (f "uplo") (nn "m") (nn "n") (f "oA") (f "ldA") (f "oB") (f "ldB") (f "oC") (f "ldC")) ""
+        else if name == "hemm" then out x y A B (symm true alpha beta A B C (f "side") (f "uplo") (nn "m") (nn "n") (f "oA") (f "ldA") (f "oB") (f "ldB") (f "oC") (f "ldC")) ""
+        else if name == "herk" then out x y A B (herk alpha beta A C (f "uplo") (f "trans") (nn "n") (nn "k") (f "oA") (f "ldA") (f "oC") (f "ldC")) ""
+        else if name == "syr2k" then out x y A B (syr2k false alpha beta A B C (f "uplo") (f "trans") (nn "n") (nn "k") (f "oA") (f "ldA") (f "oB") (f "ldB") (f "oC") (f "ldC")) ""
+        else if name == "her2k" then out x y A B (syr2k true alpha beta A B C (f "uplo") (f "trans") (nn "n") (nn "k") (f "oA") (f "ldA") (f "oB") (f "ldB") (f "oC") (f "ldC")) ""
+        else if name == "trsm" then out x y A (trsm alpha A B (f "side") (f "uplo") (f "transA") (f "diag") (nn "m") (nn "n") (f "oA") (f "ldA") (f "oB") (f "ldB")) C ""
         else "no-spec"
       (u, r)
   | _ => (u, "bad-op")
